@@ -14,6 +14,7 @@ pub fn main(args: &[String]) {
     let shards: Vec<Shard> = (0..nsh).map(|k| Shard::create(&dir, &prefix, k).with_meta(&dir, &prefix, k)).collect();
     let mut pel: Vec<Shard> = (0..nsh).map(|k| Shard::create(&dir, "pel-sim", k)).collect();
     let mut plog: Vec<Shard> = (0..nsh).map(|k| Shard::create(&dir, "plog-sim", k)).collect();
+    let mut pread: Vec<Shard> = (0..nsh).map(|k| Shard::create(&dir, "pread-sim", k)).collect();
     let mut rec = Recorder { shards, rr: 0, calls: 0, panics: Default::default(), hist: Default::default(), enabled: true };
     // --only K: just run number K of the campaign (same seed, profile and flags), with its call trace printed
     let only: Option<usize> = arg(args, "--only", "").parse().ok();
@@ -46,6 +47,10 @@ pub fn main(args: &[String]) {
             pel[k % nsh].put("pelection", &c, &i);
             let (c2, i2) = sim.pt.llines();
             plog[k % nsh].put("plog", &c2, &i2);
+            if sim.pt.reads {
+                let (c3, i3) = sim.pt.rlines();
+                pread[k % nsh].put("pread", &c3, &i3);
+            }
         }
         rec = sim.rec;
     }
@@ -59,6 +64,9 @@ pub fn main(args: &[String]) {
         s.finish();
     }
     for s in plog {
+        s.finish();
+    }
+    for s in pread {
         s.finish();
     }
     println!("cases={}", total);
